@@ -345,10 +345,15 @@ class H4Prebuffered(H4LocationService):
         bad = [b for b in H4LocationService.check(self, s) if b["kind"] not in ("unicast_request_lost",)]
         gucs = [p for p in self.frames() if p["kind"] == "guc"]
         n1 = sum(1 for p in gucs if p["payload"].endswith(b"one"))
-        if n1 != 1:      # buffered before the reply, the reply is processed, no timer can expire before: exactly once
-            bad.append(dict(kind="unicast_not_sent_exactly_once_after_reply", request="one", count=n1))
         n2 = sum(1 for p in gucs if p["payload"].endswith(b"two"))
         fresh_lookup_by_g2 = any(n == "g2" and G.parse(f)["kind"] == "ls_request" for n, f in self.ll.sent)
+        expiries = sum(1 for t in s.threads if t.is_timer and t.first_step_done and "ls_retransmit" in t.name)
+        # buffered before the reply, the reply is processed, no timer can expire before: exactly once - unless (2 preemptions)
+        # 'two' started a lookup of its own between the reply's emptying of the buffer and the re-processing of 'one', which
+        # then queued up behind 'two'; that second lookup is never answered here, so both are dropped after its final retry
+        requeued = n1 == 0 and n2 == 0 and fresh_lookup_by_g2 and expiries >= 2
+        if n1 != 1 and not requeued:
+            bad.append(dict(kind="unicast_not_sent_exactly_once_after_reply", request="one", count=n1))
         if n2 > 1 or (n2 == 0 and not fresh_lookup_by_g2):
             # 'two' may only be missing when it started a lookup of its own after the reply had been consumed (the closed
             # harness never answers that second lookup, so it is abandoned after the final retry)
